@@ -16,7 +16,7 @@ CONSTANTS FieldKinds <- K_none
           MaxGlobal = 2
           MaxScopes = 2
           MaxMsgAttrs = 3
-          MaxAttrOps = 5
+          MaxAttrOps = 4
 INVARIANTS RenderAgree WidthKept ScopesOK StoredOK
 ACTION_CONSTRAINT EdgeOut
 VIEW View
